@@ -223,7 +223,7 @@ func genConcTask(t *rapid.T) ConcTask {
 		var c SkipSeqCase
 		n := rapid.IntRange(1, 3).Draw(t, "nvals")
 		for i := 0; i < n; i++ {
-			v := genValue(t, 0, rapid.IntRange(0, 3).Draw(t, "vdepth"), false, false)
+			v := genValue(t, 0, rapid.IntRange(0, 3).Draw(t, "vdepth"), false, rapid.Bool().Draw(t, "bigStrings"))
 			enc, _ := ref.Encode(&v)
 			c.Types = append(c.Types, v.T)
 			c.Encs = append(c.Encs, enc)
